@@ -435,11 +435,47 @@ def canon(st, n_listed_before=None):
             "free": tuple((s[0], s[1], tuple(sorted(s[2]))) for s in st["free"])}
 
 
+def deleted_names(op, pre):
+    """the names of the listed ECUs a del_ecu operation deletes"""
+    k = op[0]
+    if k == "del_inst":
+        return {pre["ecus"][op[1]][0]}
+    if k == "del_foreign":
+        return {n for n, p in pre["ecus"] if (n, p) == (op[1], op[2])}
+    if k == "del_glob":
+        return {n for n, _ in pre["ecus"] if fnmatch.fnmatchcase(n, op[1])}
+    return set()
+
+
+def project(op, pre, st):
+    """Removes from a state what the statement leaves open for this operation (applied to both sides of every comparison):
+      del_ecu            'removes it and every reference to it' (no 'changes nothing else'): whether the deleted names also leave
+                         the receivers of the signals WITHOUT frame is open -> the deleted names are dropped from those lists
+      update_ecu_list    'makes every referenced ECU exist exactly once': whether ECUs named only by signals without frame are
+                         listed too is open -> appended ECUs that only such signals name are dropped
+      add_signal_receiver (not one of the four operations; anchored for the frame receiver list only): whether the new receiver
+                         is also entered into the ECU list is open -> an appended ECU of that name is dropped"""
+    k = op[0]
+    n0 = len(pre["ecus"])
+    out = dict(st)
+    if k in ("del_inst", "del_foreign", "del_glob"):
+        gone = deleted_names(op, pre)
+        out["free"] = tuple((s[0], s[1], tuple(x for x in s[2] if x not in gone)) for s in st["free"])
+    elif k == "update":
+        only_free = set(free_refs(pre)) - set(refs3(pre)) - {n for n, _ in pre["ecus"]}
+        out["ecus"] = tuple(st["ecus"][:n0]) + tuple(e for e in st["ecus"][n0:] if e[0] not in only_free)
+    elif k == "add_sr":
+        listed = {n for n, _ in pre["ecus"]}
+        out["ecus"] = tuple(st["ecus"][:n0]) + tuple(e for e in st["ecus"][n0:] if not (e[0] == op[3] and e[0] not in listed))
+    return out
+
+
 def oracle(op, pre, post):
     """-> list of (key, what, expected, observed) for this step; the caller made sure pre is inside the envelope"""
     bad = []
     k = op[0]
-    sh = shape_same(pre, post)
+    post = project(op, pre, post)
+    sh = shape_same(project(op, pre, pre), post)
     if sh:
         bad.append(("other-fields-changed", sh, None, None))
     # last sentence of the property
@@ -1013,8 +1049,8 @@ def run(chk):
                 chk.count("step neither judged nor tied: " + why)
                 continue
             chk.count("steps tied to the model")
-            add(1101, enc_state(pre) + [enc_op(op, pre)], canon(post, len(pre["ecus"])),
-                dict(stream=tag, matrix=desc, operations=[list(o) for o in ops], step=si, n_listed=len(pre["ecus"])))
+            add(1101, enc_state(pre) + [enc_op(op, pre)], canon(project(op, pre, post), len(pre["ecus"])),
+                dict(stream=tag, matrix=desc, operations=[list(o) for o in ops], step=si, n_listed=len(pre["ecus"]), op=op, pre=pre))
 
     # the witnesses of props/C11.v behave on the implementation as the model says (recorded, not claimed as violations)
     chk.extra["outside_envelope_witnesses_on_implementation"] = {
@@ -1092,10 +1128,10 @@ def run(chk):
     for inf, exp, o in zip(info, expect, out):
         got = core.parse_out(o) if o.strip() else []
         if "matrix" in inf:
-            got = canon(dec_state(got[1:]), inf["n_listed"]) if got[:1] == [[99]] else got
+            got = canon(project(inf["op"], inf["pre"], dec_state(got[1:])), inf["n_listed"]) if got[:1] == [[99]] else got
             if got != exp:
                 bad += 1
-                chk.tie_break("ecuops", inf, got, exp)
+                chk.tie_break("ecuops", {k: v for k, v in inf.items() if k not in ("pre",)}, got, exp)
         elif (got if got != [[]] else []) != (exp if exp != [[]] else []):
             bad += 1
             chk.tie_break("glob", inf, got[:40], exp[:40])
